@@ -372,6 +372,15 @@ func runPRF(w *vt.Writer, full bool) {
 			}
 			c.compute("repeat", in, uint32(n))
 		}
+		// the same PRF object walked through the input-length classes in both directions (growing, shrinking to empty,
+		// growing): per-object scratch or high-water-mark state would show
+		for wi, l := range dpk.Walk(0) {
+			n := mx
+			if n > 40 {
+				n = 40
+			}
+			c.compute("walk", content(r, l, wi+ci), uint32(n))
+		}
 	}
 }
 
@@ -499,6 +508,17 @@ func exerciseSet(w *vt.Writer, r *rand.Rand, route string, ks []ksEntry, h *keys
 	primNs := []uint32{0, 1, 16, 17, uint32(r.Intn(70)), 64, 65}
 	if route == "plan" {
 		primNs = []uint32{uint32(r.Intn(17)), 16, 65}
+	}
+	if t%3 == 0 { // input lengths in both directions on the same set
+		keep := in
+		for wi, l := range []int{40, 3, 0, 17, 100, 1} {
+			in = content(r, l, wi+t)
+			sc("primary", func(n uint32) ([]byte, error, bool) {
+				o, err := adv(in, func(b []byte) ([]byte, error) { return s.ComputePrimaryPRF(b, n) })
+				return o, err, true
+			}, 16)
+		}
+		in = keep
 	}
 	for _, n := range primNs {
 		sc("primary", func(n uint32) ([]byte, error, bool) {
